@@ -661,6 +661,8 @@ class Messenger(Connection):
             # Probe for full message (by reading back encoded data)
             try:
                 pkt = msgcls(self.__rx_buf)
+                # octets after the contact header belong to the next message
+                formats.remove_padding(pkt)
                 pkt_data = bytes(pkt)
             except formats.VerifyError as err:
                 self._logger.debug('Decoded partial packet: %s', err)
